@@ -368,6 +368,31 @@ def _walk_cases():
                "T(function () { return new F(1) }); T(function () { return F.call(null, 1) }); T(function () { return F.bind(null)(1) }); "
                "T(function () { return F.apply(null, [1]) });" % fn)
         out.append(("walk after: built-in %s used as getter, setter, conversion method and callback" % fn, {"src": src, "result": "got"}))
+    # every try / catch / finally shape (all exit kinds of the three blocks, also while an exception is pending) around
+    # for-in / for-of / switch operands: whatever a handler receives, and whatever is left in globals, is a JavaScript value
+    from mc.gen import tryshapes as TS
+    for sh in TS.SHAPES:
+        body = TS.shape_src(sh, 0, 1)
+        name = TS.sh_name(sh)
+        for enc_name, enc in (("for-in", "for (var k in {a: 1, b: 2}) { %s }"), ("for-of", "for (var v of [1, 2]) { %s }"),
+                              ("switch-in-for-in", "L: for (var k in {a: 1, b: 2}) { switch (k) { case 'a': %s } }"),
+                              ("for-of-in-switch", "switch (1) { case 1: for (var v of [1, 2]) { %s } }")):
+            if "return" in sh:
+                src = ("var kept = []; function fn() { " + (enc % body) + " return 6 } for (var q = 0; q < 2; q++) { "
+                       "try { kept.push(fn()) } catch (ez) { kept.push(ez) } }")
+            else:
+                src = "var kept = []; for (var q = 0; q < 2; q++) { try { " + (enc % body) + " } catch (ez) { kept.push(ez) } }"
+            src = src.replace("__out(", "kept.push(")
+            out.append(("walk after try shape %s inside %s" % (name, enc_name), {"src": src, "result": "kept"}))
+    # typed arrays of every kind: fresh, after their buffer has been materialised, through views and subarrays
+    for kind in ("Int8Array", "Uint8Array", "Uint8ClampedArray", "Int16Array", "Uint16Array", "Int32Array", "Uint32Array", "Float32Array", "Float64Array"):
+        src = ("var t = new %s([1, 2, 3]); var before = [t[0], t[1], t[5], t.length]; var buf = t.buffer; var after = [t[0], t[2], t.length, buf.byteLength]; "
+               "var sub = t.subarray(1); var subv = [sub[0], sub[1], sub[9], sub.length]; var view = new %s(buf); view[0] = 7; var seen = [t[0], view[0], view[1]]; "
+               "var copy = new %s(t); var cp = [copy[0], copy[2]]; t.set([9], 1); var st = [t[1], sub[0]]; var viaMap = [].map.call(t, function (x) { return x }); "
+               "var viaJoin = t.join(); var dv = new Float64Array(buf.byteLength >= 8 ? 1 : 0); var onBuf = new Uint8Array(buf, 1); var ob = [onBuf[0], onBuf.length];"
+               % (kind, kind, kind))
+        out.append(("walk after typed array %s (buffer, subarray, views, copy, set)" % kind,
+                    {"src": src, "result": "[before, after, subv, seen, cp, st, viaMap, viaJoin, ob]"}))
     for ck in CALLABLE_KINDS:
         for how in ("to_js", "set", "nested"):
             for kind in ("int", "tuple", "nested", "object", "none", "lambda"):
